@@ -283,8 +283,210 @@ class _SimQueue:
 
 class QueueModule:
     Queue = _SimQueue
+    SimpleQueue = _SimQueue
     Empty = _queue.Empty
     Full = _queue.Full
+
+
+class SimEvent:
+    """threading.Event look-alike: wait() parks in the scheduler."""
+
+    def __init__(self):
+        self._flag = False
+
+    def is_set(self):
+        return self._flag
+
+    isSet = is_set
+
+    def set(self):
+        s = _cur()
+        if s is not None:
+            s.yield_point()
+        self._flag = True
+
+    def clear(self):
+        self._flag = False
+
+    def wait(self, timeout=None):
+        s = _cur()
+        if s is None:
+            return self._flag
+        s.yield_point()
+        if not self._flag:
+            s.block(self.is_set, None if timeout is None else s.clock + max(timeout, 0.0), 'event')
+        return self._flag
+
+
+class SimCondition:
+    """threading.Condition look-alike over a SimLock / SimRLock."""
+
+    def __init__(self, lock=None):
+        self._lock = lock if lock is not None else SimRLock()
+        self.acquire = self._lock.acquire
+        self.release = self._lock.release
+        self._waiters = []
+
+    def __enter__(self):
+        return self._lock.__enter__()
+
+    def __exit__(self, *a):
+        return self._lock.__exit__(*a)
+
+    def _release_all(self):
+        n = 0
+        if isinstance(self._lock, SimRLock):
+            while self._lock._depth and self._lock._owner == _sched.CUR.cur.idx:
+                self._lock.release()
+                n += 1
+        else:
+            self._lock.release()
+            n = 1
+        return n
+
+    def wait(self, timeout=None):
+        s = _cur()
+        if s is None:
+            return True
+        token = [False]
+        self._waiters.append(token)
+        n = self._release_all()
+        try:
+            s.block(lambda: token[0], None if timeout is None else s.clock + max(timeout, 0.0), 'condition')
+        finally:
+            if token in self._waiters:
+                self._waiters.remove(token)
+            for _ in range(n):
+                self._lock.acquire()
+        return token[0]
+
+    def wait_for(self, predicate, timeout=None):
+        s = _cur()
+        end = None if timeout is None or s is None else s.clock + timeout
+        r = predicate()
+        while not r:
+            left = None
+            if end is not None:
+                left = end - s.clock
+                if left <= 0:
+                    break
+            self.wait(left)
+            r = predicate()
+        return r
+
+    def notify(self, n=1):
+        s = _cur()
+        if s is not None:
+            s.yield_point()
+        for token in self._waiters[:n]:
+            token[0] = True
+        del self._waiters[:n]
+
+    def notify_all(self):
+        self.notify(len(self._waiters))
+
+    notifyAll = notify_all
+
+
+class SimSemaphore:
+    """threading.Semaphore look-alike."""
+    _bounded = False
+
+    def __init__(self, value=1):
+        if value < 0:
+            raise ValueError('semaphore initial value must be >= 0')
+        self._value = self._initial = value
+
+    def acquire(self, blocking=True, timeout=None):
+        s = _cur()
+        if s is None:
+            if self._value > 0:
+                self._value -= 1
+            return True
+        s.yield_point()
+        if self._value <= 0:
+            if not blocking:
+                return False
+            deadline = None if timeout is None else s.clock + max(timeout, 0.0)
+            while self._value <= 0:
+                s.block(lambda: self._value > 0, deadline, 'semaphore')
+                if self._value <= 0 and deadline is not None and s.clock >= deadline:
+                    return False
+        self._value -= 1
+        return True
+
+    __enter__ = acquire
+
+    def release(self, n=1):
+        if self._bounded and self._value + n > self._initial:
+            raise ValueError('Semaphore released too many times')
+        self._value += n
+
+    def __exit__(self, *a):
+        self.release()
+
+
+class SimBoundedSemaphore(SimSemaphore):
+    _bounded = True
+
+
+class SimThreadObj:
+    """threading.Thread look-alike whose body runs as a sim thread (subclassable: run())."""
+    _count = 0
+
+    def __init__(self, group=None, target=None, name=None, args=(), kwargs=None, *, daemon=None):
+        SimThreadObj._count += 1
+        self._target = target
+        self._args = tuple(args)
+        self._kwargs = dict(kwargs or {})
+        self.name = name or f'SimThread-{SimThreadObj._count}'
+        self.daemon = bool(daemon)
+        self._t = None
+        self._started = False
+
+    def run(self):
+        if self._target is not None:
+            self._target(*self._args, **self._kwargs)
+
+    def start(self):
+        s = _cur()
+        if s is None:
+            raise RuntimeError('Thread.start outside a simulation run')
+        if self._started:
+            raise RuntimeError('threads can only be started once')
+        self._started = True
+        self._t = s.spawn(self.run, 'thread')
+        s.yield_point()
+
+    def is_alive(self):
+        return self._t is not None and self._t.state != _sched.DONE
+
+    @property
+    def ident(self):
+        return None if self._t is None or self._t.thread is None else self._t.thread.ident
+
+    native_id = ident
+
+    def getName(self):
+        return self.name
+
+    def setName(self, n):
+        self.name = n
+
+    def isDaemon(self):
+        return self.daemon
+
+    def setDaemon(self, d):
+        self.daemon = bool(d)
+
+    def join(self, timeout=None):
+        s = _cur()
+        if s is None or self._t is None:
+            return
+        if s.me() is self._t:
+            raise RuntimeError('cannot join current thread')
+        t = self._t
+        s.block(lambda: t.state == _sched.DONE, None if timeout is None else s.clock + max(timeout, 0.0), 'thread-join')
 
 
 def sim_sleep(d):
@@ -324,6 +526,11 @@ class _Seams:
         t = {
             id(_threading.Lock): SimLock, id(_threading.RLock): SimRLock, id(_cf.ThreadPoolExecutor): SimPool,
             id(_time.sleep): sim_sleep, id(_time.time): tm.time, id(_time.monotonic): tm.time,
+            id(_time.perf_counter): tm.time, id(_time.time_ns): tm.time_ns, id(_time.monotonic_ns): tm.time_ns,
+            id(_time.perf_counter_ns): tm.time_ns,
+            id(_threading.Event): SimEvent, id(_threading.Condition): SimCondition, id(_threading.Semaphore): SimSemaphore,
+            id(_threading.BoundedSemaphore): SimBoundedSemaphore, id(_threading.Thread): SimThreadObj,
+            id(_queue.SimpleQueue): _SimQueue, id(_cf.Future): SimFuture,
             id(_time): tm, id(_threading): ThreadingModule(), id(_queue): QueueModule, id(_queue.Queue): _SimQueue,
         }
         if self.plan is not None:
@@ -383,6 +590,16 @@ class TimeModule:
         return s.clock if s is not None else 0.0
 
     monotonic = time
+    perf_counter = time
+
+    def time_ns(self):
+        return int(self.time() * 1_000_000_000)
+
+    monotonic_ns = time_ns
+    perf_counter_ns = time_ns
+
+    def __getattr__(self, name):        # strftime, gmtime, struct_time ...: no clock reading in them worth shimming
+        return getattr(_time, name)
 
     def sleep(self, d):
         s = _cur()
@@ -396,6 +613,11 @@ class TimeModule:
 class ThreadingModule:
     Lock = SimLock
     RLock = SimRLock
+    Event = SimEvent
+    Condition = SimCondition
+    Semaphore = SimSemaphore
+    BoundedSemaphore = SimBoundedSemaphore
+    Thread = SimThreadObj
 
     def __getattr__(self, name):
         return getattr(_threading, name)
